@@ -700,6 +700,7 @@ class PassHooks(SendHooks):
     def __init__(self, c):
         super().__init__()
         self.c = c
+        self.ends = []
 
     def prim_job_avail(self, E, x, args):
         return [Outcome(ret=fs(0)), Outcome(ret=fs(1))]
@@ -756,6 +757,8 @@ class PassHooks(SendHooks):
 
     def prim_getln(self, E, x, args):
         self.count('getln')
+        if g1(E, '$owner') == 'job':      # the first record of a pass that starts in this call: where will its mark go?
+            E.set('$mp0', fs('zero' if E.get('G:pass[%d].mpos' % self.c) == fs(0) else 'unknown'))
         self.site('pass:record-read-only-when-a-delivery-slot-is-free', x, g1(E, '$delavail', 0) == 1,
                   'a recipient record is read although del_avail(c) was not established: the record would be skipped without a delivery attempt', E)
         mp = None
@@ -803,6 +806,13 @@ class PassHooks(SendHooks):
         return [Outcome(ret=TOP, log='job_close')]
 
     def on_return(self, E, fn, val):
+        if fn.name == 'pass_dochan':
+            idv, mp = E.get('G:pass[%d].id' % self.c), E.get('G:pass[%d].mpos' % self.c)
+            started = g1(E, '$owner') == 'job'
+            mp_start = mp
+            if started and g1(E, '$mp0') is not None:
+                mp_start = fs(0) if g1(E, '$mp0') == 'zero' else TOP
+            self.ends.append((started, idv, mp, mp_start, E.trace.list()))
         taken = g1(E, '$taken')
         if taken:
             ok = g1(E, '$owner') == 'job' or g1(E, '$ins:%s' % taken, 0) >= 1
@@ -840,6 +850,50 @@ def analyse_pass_dochan(db, rep):
     if counts.get('delmin', 0) < 2 or counts.get('getln', 0) < 2 or counts.get('del_start', 0) < 2:
         if all(v[0] for v in sites.values()):
             raise AnalysisBroken('pass_dochan: events not explored (%s)' % counts)
+    # a new pass must start marking at offset 0 of the channel file: either it sets mpos itself, or "no pass open => mpos == 0"
+    # is an invariant (established by pass_init, preserved by every way a pass ends)
+    def starts(assume_inv):
+        bad_start = bad_inv = None
+        n = 0
+        for c in (0, 1):
+            for preset in ({'G:pass[%d].id' % c: fs(0)}, {'G:pass[%d].id' % c: fs(5)}):
+                st = dict(preset)
+                st['pass_dochan::P:c'] = fs(c)
+                if assume_inv and preset['G:pass[%d].id' % c] == fs(0):
+                    st['G:pass[%d].mpos' % c] = fs(0)
+                H = PassHooks(c)
+                H.site = lambda *a, **k: None
+                eng = Engine(db, prog, H)
+                eng.run(fn, st)
+                rep.count_states(eng.states, eng.transitions)
+                for started, idv, mp, mp_start, tr in H.ends:
+                    if started:
+                        n += 1
+                        if mp_start != fs(0) and bad_start is None:
+                            bad_start = tr
+                    if idv == fs(0) and mp != fs(0) and bad_inv is None:
+                        bad_inv = tr
+        return n, bad_start, bad_inv
+    n1, bs1, _ = starts(False)
+    if n1 < 2:
+        raise AnalysisBroken('pass_dochan: pass starts not explored')
+    if bs1 is None:
+        sites['pass:a-new-pass-marks-from-offset-0'] = (True, 'qmail-send.c:pass_dochan', 'mpos is reset when the channel file is opened', [])
+    else:
+        n2, bs2, bi2 = starts(True)
+        pi = prog.fn('pass_init', 'qmail-send.c')
+        H = PassHooks(0)
+        H.site = lambda *a, **k: None
+        H.precise = frozenset(['L:c', 'L:i', 'L:j'])
+        eng = Engine(db, prog, H)
+        fin = []
+        H.on_return = lambda E, f, v: fin.append([E.get('G:pass[%d].mpos' % c_) for c_ in (0, 1)]) if f.name == 'pass_init' else None
+        eng.run(pi, {})
+        init_ok = bool(fin) and all(v == fs(0) for row in fin for v in row)
+        ok = bs2 is None and bi2 is None and init_ok
+        why = ('a pass that starts does not reset the mark offset, and "no pass open => mpos == 0" is not an invariant: %s; the D mark of the next pass would be written onto another recipient\'s record' %
+               ('pass_init() does not establish it' if not init_ok else 'this path ends a pass with mpos != 0'))
+        sites['pass:a-new-pass-marks-from-offset-0'] = (ok, 'qmail-send.c:pass_dochan', why, (bi2 or bs2 or bs1) if not ok else [])
     return sites
 
 
